@@ -143,6 +143,18 @@ def to_tfrecord(saved_data_description: list[Attribute],
             raise ValueError(f"Wrong shape of {attribute.name}, expected: "
                              f"{attribute.shape}, got: {value.shape}.")
 
+        # Check the kind of the value. A value of another kind (e.g., a
+        # string for an integer attribute) would be saved as a feature of
+        # another type and the whole shard could not be parsed back.
+        if attribute.dtype in ["int8", "uint8", "int32", "int64"]:
+            if value.dtype.kind not in "iub":
+                raise ValueError(f"Wrong dtype of {attribute.name}, expected: "
+                                 f"{attribute.dtype}, got: {value.dtype}.")
+        elif attribute.dtype in ["float16", "float32"]:
+            if value.dtype.kind not in "fiub":
+                raise ValueError(f"Wrong dtype of {attribute.name}, expected: "
+                                 f"{attribute.dtype}, got: {value.dtype}.")
+
         # Set feature value
         if attribute.dtype in ["int8", "uint8", "int32", "int64"]:
             feature[attribute.name] = int64_feature(values[attribute.name])
@@ -150,7 +162,9 @@ def to_tfrecord(saved_data_description: list[Attribute],
             value = value.astype(dtype=np.float16)
             feature[attribute.name] = bytes_feature(
                 [tf.io.serialize_tensor(value).numpy()])
-        elif attribute.dtype in ["float32", "float64"]:
+        elif attribute.dtype == "float32":
+            # Note that float64 cannot be parsed back (FixedLenFeature
+            # supports only float32, int64, and string).
             feature[attribute.name] = float_feature(values[attribute.name])
         elif attribute.dtype == "str":
             feature[attribute.name] = bytes_feature(
